@@ -88,6 +88,7 @@ pub fn run(ctx: &Ctx, rec: &mut Rec) {
     for cl in ["hint:y=0", "hint:y^2=1", "hint:y^2=1/den", "hint:y^2=zeta/den", "hint:-honest", "hint:zeta*honest", "hint:random", "den=0", "den!=0"] {
         rec.declare_class(cl);
     }
+    hostile_programs(ctx, rec, &zoo);
     // ---------------- (a) isqrt hint substitutions
     let mut work: Vec<(usize, Inp, String)> = Vec::new();
     for (gi, g) in gs.iter().enumerate() {
@@ -305,7 +306,8 @@ pub fn run(ctx: &Ctx, rec: &mut Rec) {
     // lazily decoded *invalid* encoding (witness or public input), surrounded by valid elements in every
     // allocation mode and by padding witnesses (so that variable indices of different kinds coincide);
     // once that variable is forced the system must not be satisfied, whatever else the circuit did before
-    hostile_programs(ctx, rec, &zoo);
+    // (executed first, see the top of this function: a change that makes synthesis retain memory would otherwise
+    // end the run at the memory guard before this part is reached)
 
     // ---------------- end-to-end impact of the known den = 0 family: with the repository's *pinned*
     // decompression proving key a Groth16 proof that "s = q-1 decodes to P" verifies for arbitrary P
